@@ -239,6 +239,29 @@ StartN(t, c) ==
     [] t.k = "alt"  -> \E x \in t.s : StartN(x, c)
     [] t.k \in {"and", "not"} -> NonEmpty(Ke(DerivN(t, c)))
 
+(* matcher::naive_re_search on model terms: an empty match at k if allowed and the pattern is nullable; else for  *)
+(* every start i >= k, derive along the subject until the derivative is nullable (match i..j+1) or is the Empty   *)
+(* term (give up this start).  Result <<i, j>> (0-based, end exclusive) or <<-1, -1>>.                          *)
+RECURSIVE ScanN(_, _, _, _), SearchFromN(_, _, _)
+ScanN(p, s, i, j) ==                    \* p = derivative of the pattern along s[i..j)
+  IF j >= Len(s) THEN -1
+  ELSE LET q == DerivN(p, s[j + 1]) IN
+       IF NulN(q) THEN j + 1 ELSE IF q = NNone THEN -1 ELSE ScanN(q, s, i, j + 1)
+SearchFromN(pat, s, i) ==
+  IF i >= Len(s) THEN <<-1, -1>>
+  ELSE LET e == ScanN(pat, s, i, i) IN IF e >= 0 THEN <<i, e>> ELSE SearchFromN(pat, s, i + 1)
+SearchN(pat, s, k, allowEmpty) == IF allowEmpty /\ NulN(pat) THEN <<k, k>> ELSE SearchFromN(pat, s, k)
+(* str_replace_re / str_replace_re_all on top of it *)
+ReplaceReN(s, pat, u) ==
+  LET m == SearchN(pat, s, 0, TRUE) IN
+  IF m[1] < 0 THEN s ELSE SubSeq(s, 1, m[1]) \o u \o SubSeq(s, m[2] + 1, Len(s))
+RECURSIVE ReplaceAllFromN(_, _, _, _)
+ReplaceAllFromN(s, pat, u, i) ==
+  LET m == SearchN(pat, s, i, FALSE) IN
+  IF m[1] < 0 THEN SubSeq(s, i + 1, Len(s))
+  ELSE SubSeq(s, i + 1, m[1]) \o u \o ReplaceAllFromN(s, pat, u, m[2])
+ReplaceReAllN(s, pat, u) == ReplaceAllFromN(s, pat, u, 0)
+
 (* exact language equality of two N-terms *)
 SameLang(a, b) == Equiv(Ke(a), Ke(b))
 =============================================================================
